@@ -2,7 +2,7 @@ SPECIFICATION MCSpec
 CONSTANTS
   Pubs = {"p1", "p2"}
   MaxMsgs = 4
-  MaxPerPub = 3
+  MaxPerPub = 2
   MaxReads = 1
   OccSet = {TRUE}
   BatchSet = {2}
